@@ -1854,7 +1854,9 @@ class Wtp:
         # " " in Lua Module name is replaced by "_" in Wiktionary Lua code
         # when call `require`
         title = title.replace("_", " ")
-        if title.startswith("Main:"):
+        if title.startswith("Main:") and not namespace_id:
+            # "Main:" is the prefix of the main namespace only; add_page()
+            # keeps it in titles of other namespaces
             title = title[5:]
         if len(title) == 0:
             return None
